@@ -159,3 +159,20 @@ def _(self: Obj['rbql_engine.TableWriter'], header: Opt[List[Str]]):
     ensures(is_none(self.header) == is_none(header) and implies(not is_none(header), same(opt_val(self.header), opt_val(header))), 'header_kept_for_the_caller')
     ensures(contents(self.table) == old(contents(self.table)), 'table_untouched')
     modifies(field(self, 'header'))
+
+
+# ---------------------------------------------------------------- ListTableRegistry (C16/C13: every lookup hands out a NEW, unread iterator)
+namedtuple_types('rbql_engine.ListTableInfo', table_id=Str, table=List[List[Cell]], column_names=Opt[List[Str]])
+classdef('rbql_engine.ListTableRegistry', bases=['rbql_engine.RBQLTableRegistry'], fields=dict(table_infos=List[NT['rbql_engine.ListTableInfo']], normalize_column_names=Bool))
+
+
+@contract('rbql_engine.ListTableRegistry.get_iterator_by_table_id', name='C16.list_registry.lookup', props=['C16', 'C13'], store_policy='none')
+def _(self: Obj['rbql_engine.ListTableRegistry'], table_id: Str, single_char_alias: Str) -> Opt[Obj['rbql_engine.TableIterator']]:
+    requires(forall(Int, lambda i: implies(0 <= i and i < len(self.table_infos), allocated(contents(self.table_infos)[i].table)
+                                           and forall(Int, lambda k: implies(0 <= k and k < len(contents(self.table_infos)[i].table), is_src(contents(contents(self.table_infos)[i].table)[k]))))), 'registered_tables_are_sources')
+    loop_types(0, table_info=NT['rbql_engine.ListTableInfo'])
+    invariant(0, 0 <= __i and __i <= len(self.table_infos) and contents(self.table_infos) == old(contents(self.table_infos)), 'idx')
+    # queries sharing one registry do not share iterator state: every lookup creates a new iterator positioned at the first record
+    ensures(implies(not is_none(result), is_fresh(opt_val(result)) and opt_val(result).pos == 0 and opt_val(result).NR == 0), 'a_new_unread_iterator')
+    ensures(contents(self.table_infos) == old(contents(self.table_infos)), 'registry_unchanged')
+    modifies(fresh_only())
